@@ -316,6 +316,13 @@ func (g *Gen) prebindGhosts() {
 		if t == nil {
 			continue
 		}
+		if _, isRes := gh.Expr.(*EResult); !isRes && !isComposite(t) {
+			if g.cellGhosts == nil {
+				g.cellGhosts = map[string]types.Type{}
+			}
+			g.cellGhosts[gh.Name] = t
+			continue
+		}
 		func() {
 			defer func() { _ = recover() }()
 			v := g.freshVal("ghost:"+gh.Name, t)
@@ -1239,6 +1246,13 @@ func (g *Gen) havocEverything(why string) {
 			g.heap.m["$alloc"] = nr
 			continue
 		}
+		if strings.HasPrefix(n, "ghost:") {
+			// expression ghosts are specification state: no code changes them
+			if _, ok := g.heap.m[n]; !ok {
+				g.heap.m[n] = g.heapGet(g.heap, n, g.heapSorts[n])
+			}
+			continue
+		}
 		if strings.HasPrefix(n, "held:") {
 			// lock ghost bits (track-locks) survive calls to unknown code: a callee is assumed not to release or
 			// take its caller's locks (recorded as an assumption where track-locks is used)
@@ -1360,6 +1374,21 @@ func (g *Gen) execInstr(in ssa.Instruction) {
 				}
 				g.ghostVals[c.Name] = v
 				g.ghostDefs = append(g.ghostDefs, ghostDef{c.Name, g.curBlock, v, false})
+				if v.K == kScalar && !isComposite(v.T) {
+					// scalar expression ghosts also live in the symbolic state (see eval of EIdent): path-sensitive
+					if g.cellGhosts == nil {
+						g.cellGhosts = map[string]types.Type{}
+					}
+					if _, known := g.cellGhosts[c.Name]; !known {
+						g.cellGhosts[c.Name] = v.T
+					}
+					if types.Identical(g.cellGhosts[c.Name].Underlying(), v.T.Underlying()) || g.scalarSort(g.cellGhosts[c.Name]) == g.scalarSort(v.T) {
+						srt := "(Array Int " + g.scalarSort(g.cellGhosts[c.Name]) + ")"
+						cur := g.heapGet(g.heap, "ghost:"+c.Name, srt)
+						g.heap = g.heap.clone()
+						g.heapSet(g.heap, "ghost:"+c.Name, srt, "(store "+cur+" 0 "+v.S+")")
+					}
+				}
 			}
 			if len(g.pendingGhosts) > 0 {
 				// assertions may depend on the ghosts: keep them pending as well
